@@ -208,6 +208,10 @@ type Conn struct {
 	msgID                 atomic.Uint32
 	blockwiseSZX          blockwise.SZX
 
+	// token of a confirmable request that is being written -> its message ID: lets a response, which is matched by its
+	// token, acknowledge the request (RFC 7252 section 5.2.2) whichever entrance the request was written through
+	requestMessageIDs *coapSync.Map[string, int32]
+
 	localAddr      atomic.Pointer[net.IP]
 	interfaceIndex atomic.Int64
 
@@ -339,6 +343,7 @@ func NewConnWithOpts(session Session, cfg *Config, opts ...Option) *Conn {
 
 		tokenHandlerContainer:     coapSync.NewMap[uint64, HandlerFunc](),
 		midHandlerContainer:       coapSync.NewMap[int32, *midElement](),
+		requestMessageIDs:         coapSync.NewMap[string, int32](),
 		processReceivedMessage:    cfg.ProcessReceivedMessage,
 		errors:                    cfg.Errors,
 		msgIDMutex:                NewMutexMap(),
@@ -580,6 +585,12 @@ func (cc *Conn) writeMessage(req *pool.Message) error {
 		return err
 	}
 	defer closeFn()
+	if token := req.Token(); len(token) > 0 && req.Code() >= codes.GET && req.Code() <= codes.DELETE {
+		// as long as the request waits for its acknowledgement, a response finds its message ID by the token
+		// (the whole token, not its hash: a response to another request must not acknowledge this one)
+		cc.requestMessageIDs.Store(string(token), req.MessageID())
+		defer cc.requestMessageIDs.Delete(string(token))
+	}
 	if err := cc.session.WriteMessage(req); err != nil {
 		return fmt.Errorf(errFmtWriteRequest, err)
 	}
@@ -711,11 +722,29 @@ func (cc *Conn) sendPong(w *responsewriter.ResponseWriter[*Conn], r *pool.Messag
 	}
 }
 
+// acknowledgeByResponse: a response that arrives while the confirmable request it answers is still being retransmitted
+// (its acknowledgement got lost) also acknowledges the request - RFC 7252 section 5.2.2 - whoever waits for the
+// response (doInternal's token handler, an observation, nobody). The response itself is dispatched by the caller.
+func (cc *Conn) acknowledgeByResponse(w *responsewriter.ResponseWriter[*Conn], m *pool.Message) {
+	if m.Code() <= codes.DELETE || len(m.Token()) == 0 {
+		return // empty message or request
+	}
+	mid, ok := cc.requestMessageIDs.Load(string(m.Token()))
+	if !ok {
+		return
+	}
+	if elem, ok := cc.midHandlerContainer.LoadAndDelete(mid); ok {
+		elem.ReleaseMessage(cc)
+		elem.handler(w, m)
+	}
+}
+
 func (cc *Conn) handle(w *responsewriter.ResponseWriter[*Conn], m *pool.Message) {
 	if m.IsSeparateMessage() {
 		// msg was processed by token handler - just drop it.
 		return
 	}
+	cc.acknowledgeByResponse(w, m)
 	if cc.blockWise != nil {
 		cc.blockWise.Handle(w, m, cc.blockwiseSZX, cc.session.MaxMessageSize(), func(rw *responsewriter.ResponseWriter[*Conn], rm *pool.Message) {
 			if h, ok := cc.tokenHandlerContainer.LoadAndDelete(rm.Token().Hash()); ok {
